@@ -16,7 +16,7 @@ SPEC = {
     "engine": "E1 (CondSRF, Krige, RandMeth) + E2 (kernels) with symbolic inverse and symbolic random numbers",
     "files": FILES,
     "functions": ["CondSRF.__call__/get_scaling/set_pos and its model / mean / trend / normalizer setters", "Krige.__call__/set_condition", "Field.set_pos/pre_pos/post_field/_pos_equal/delete_fields", "RandMeth.update/__call__"],
-    "bounds": {"quick": {"dim": "1", "conditioning points": "2", "targets": "2", "modes": "2", "histories": "<=2 operations before the final call"}, "thorough": {"histories": "<=3 operations; 2-D for the formula"}},
+    "bounds": {"quick": {"dim": "1", "conditioning points": "2", "targets": "2", "modes": "2", "histories": "<=2 operations before the final call"}, "thorough": {"histories": "<=3 operations, and 4 operations over the core operations (ordinary kriging)"}},
     "stubs": ["(pseudo-)inverse: symbolic matrix per inversion, identified across objects that invert the same matrix", "random numbers: symbols named by seed value and draw position", "correlation: uninterpreted"],
     "oracle": "field = kriging estimate + sqrt(kriging variance / var) * unconditional field of the same seed (+ nugget part); after a history: the field of a freshly built Krige + CondSRF with the final data, model, mean/trend and seed",
     "outside": ["histories longer than the bound"],
@@ -341,6 +341,7 @@ def jobs(tier, seed):
         if tier == "thorough" and variant == "ordinary":
             core_ops = ["call_newseed", "cond_values", "model_refresh", "trend", "call_newpos"]
             seqs += [s_ for s_ in itertools.product(core_ops, repeat=3) if all(s_.count(o) <= 1 for o in once)]
+            seqs += [s_ for s_ in itertools.product(core_ops, repeat=4) if all(s_.count(o) <= 1 for o in once) and s_.count("call_newseed") <= 2 and s_.count("call_newpos") <= 1]
         for s in seqs:
             js.append(Job(f"hist-{variant}-{'>'.join(s)}", job_history, variant, s, tier))
     for s in (("mean",), ("call", "mean"), ("call", "trend"), ("call", "normalizer"), ("call", "mean", "call", "trend"), ("call", "normalizer", "mean")):
